@@ -31,6 +31,8 @@ for d in dirs:
         var = {"a": "i", "b": "j"}[var]  # fifth (small) wave: six properties, "something none of the earlier eight resembles"
     if "/mut6/" in d:
         var = {"a": "k", "b": "l"}[var]  # sixth wave (round 3): "resemble none of the earlier ideas: different code site AND different mechanism"
+    if "/mut7/" in d:
+        var = {"a": "l"}[var]  # seventh wave (round 3; the five properties wave 6 left out, same instructions)
     if "/mut4/" in d:
         var = {"a": "g", "b": "h"}[var]  # fourth wave (less obvious sites: config merging, helpers, server layer, wiring)
     sid = prop + var
